@@ -236,7 +236,8 @@ def _expand(item):
 def all_pairs(ctx, alphabet, check, drop=()):
     """Every history of length 2 over the alphabet, without merging states: the state digest leaves out what the
     code is assumed never to read back (result caches, the temporaries counter); this layer does not rely on it."""
-    items = [([e1], e2, tuple(drop)) for e1 in alphabet for e2 in alphabet]
+    # the two instances are built alike: [e1@B, e2@x] is the mirror image of [e1@A, e2@x'], so the first event is taken on A
+    items = [([e1], e2, tuple(drop)) for e1 in alphabet if e1.inst == "A" for e2 in alphabet]
     res = core.pmap(_expand, items, seed=ctx.seed, chunk=16)
     violations = []
     for (h, ev, _d), (obs, _dig) in zip(items, res):
